@@ -1,16 +1,22 @@
 #!/bin/sh
-# regression over all stored seeded changes: every property listed in meta.detected_by must raise a VIOLATION on the change; prints a table
+# regression over all stored seeded changes: every property listed in meta.detected_by must raise a VIOLATION on the change; prints a table.
+# Works on a scratch worktree (VERIF_REPO) so that /repo stays untouched; Kani harnesses (C12/C13 layout) still compile /repo itself and are
+# therefore skipped here (VERIF_NO_KANI=1) - seeds that only Kani detects are re-run with tools/seedtest.sh.
+W=${SEED_WT:-/tmp/seedrepo}
+git -C /repo worktree remove --force $W 2>/dev/null
+git -C /repo worktree add -q --detach $W HEAD || exit 2
 cd /verif
 for d in seeded/*/; do
   n=$(basename $d)
+  [ -f $d/meta.json ] || { echo "$n: no meta.json"; continue; }
   props=$(python3 -c "import json,re;m=json.load(open('$d/meta.json'));print(' '.join(dict.fromkeys(re.findall(r'C[0-9][0-9]', ' '.join(m.get('detected_by') or [m['property']])))))")
-  cd /repo && git apply /verif/$d/patch.diff || { echo "$n: patch does not apply"; cd /verif; continue; }
-  cd /verif
+  git -C $W apply /verif/$d/patch.diff || { echo "$n: patch does not apply"; continue; }
   for p in $props; do
-    out=$(VERIF_WORK=/tmp/seed_work VERIF_EVIDENCE_DIR=/tmp/seed_ev VERIF_REPLAYS=/tmp/seed_rp ./check $p 2>&1)
+    out=$(VERIF_REPO=$W VERIF_NO_KANI=1 VERIF_WORK=/tmp/seedall_work VERIF_EVIDENCE_DIR=/tmp/seedall_ev VERIF_REPLAYS=/tmp/seedall_rp ./check $p 2>&1)
     rc=$?
     echo "$n $p rc=$rc $(echo "$out" | grep -c '^VIOLATION') violation-lines"
   done
-  git -C /repo checkout -- .
+  git -C $W checkout -q -- .
 done
-rm -rf /tmp/seed_work
+git -C /repo worktree remove --force $W
+rm -rf /tmp/seedall_work /tmp/seedall_ev /tmp/seedall_rp
